@@ -58,9 +58,10 @@ def showObs (o : Obs) : String :=
 
 def showState (i : Inst) : String :=
   let sts := ",".intercalate (i.ports.map (fun p => p.st.name))
+  let rms := ",".intercalate (i.ports.map (fun p => match p.st with | .slave r _ _ _ => showPid r | _ => "-"))
   let s := i.st
   let path := if s.pathTrace.isEmpty then "-" else ",".intercalate (s.pathTrace.map (fun c => hexBE c 8))
-  s!"S {if sts = "" then "-" else sts} | D {s.stepsRemoved} {showPid s.parent.parentPort} {hexBE s.parent.gmIdentity 8} {s.parent.gmQuality.clockClass} {s.parent.gmQuality.accuracy} {s.parent.gmQuality.variance} {s.parent.gmP1} {s.parent.gmP2} | T {showTp s.tp} | PT {bstr s.pathEnable} {path} | DF {s.dflt.quality.clockClass} {s.dflt.quality.accuracy} {s.dflt.quality.variance} {bstr s.dflt.slaveOnly} {s.dflt.numberPorts}"
+  s!"S {if sts = "" then "-" else sts} | D {s.stepsRemoved} {showPid s.parent.parentPort} {hexBE s.parent.gmIdentity 8} {s.parent.gmQuality.clockClass} {s.parent.gmQuality.accuracy} {s.parent.gmQuality.variance} {s.parent.gmP1} {s.parent.gmP2} | T {showTp s.tp} | PT {bstr s.pathEnable} {path} | DF {s.dflt.quality.clockClass} {s.dflt.quality.accuracy} {s.dflt.quality.variance} {bstr s.dflt.slaveOnly} {s.dflt.numberPorts} | RM {if i.ports.isEmpty then "-" else rms}"
 
 def parseInit (ws : List String) : Option Inst :=
   match ws with
